@@ -16,7 +16,9 @@ pub struct Plan {
 fn judge_history(ctx: &Ctx, stats: &mut Stats, h: &History) {
     h.absorb_into(stats);
     // the first record ends a history; anything after it would be judged on a diverged state
-    if let Some(r) = h.records.first() {
+    // (all records of a history come from one step; the one of this check's property is its verdict)
+    let mine = h.records.iter().find(|r| r.property == ctx.property).or(h.records.first());
+    if let Some(r) = mine {
         if r.property == ctx.property {
             let rec = r.clone();
             match judge(ctx, stats, rec, || h.replay_json()) {
